@@ -1653,15 +1653,16 @@ impl<'a> Model<'a> {
         // Formulas are stored internally in English regardless of the user's
         // active language. Translate before materializing the rule so an invalid
         // formula fails without creating an orphan dxf.
-        let mut new_rule = new_rule;
-        self.cf_rule_input_to_internal(&mut new_rule, sheet)?;
-        let final_rule = self.cf_rule_from_input(new_rule);
-        let ws = self.workbook.worksheet_mut(sheet)?;
-        if index >= ws.conditional_formatting.len() {
+        // Validate the target before materializing the rule: creating the rule registers a dxf
+        if index >= self.workbook.worksheet(sheet)?.conditional_formatting.len() {
             return Err(format!(
                 "Conditional formatting index {index} out of bounds"
             ));
         }
+        let mut new_rule = new_rule;
+        self.cf_rule_input_to_internal(&mut new_rule, sheet)?;
+        let final_rule = self.cf_rule_from_input(new_rule);
+        let ws = self.workbook.worksheet_mut(sheet)?;
         let old = ws.conditional_formatting[index].clone();
         ws.conditional_formatting[index].range = new_range.to_string();
         ws.conditional_formatting[index].cf_rule = final_rule;
